@@ -104,6 +104,20 @@ Definition abs (s : st) : SymbolMap.symbol_map :=
           [] [] [] [] [] (abs_pos s) None (map (fun d => cv (fst d)) (rev (s_diags s))).
 
 
+(** ---- the name maps.  Scope.v keeps its own (newest binding first, shadowed bindings kept); the HashMaps of
+    symbol_map.rs hold one binding per name: [amap_of] replays the bindings oldest first through the model's insert.
+    [absN s] = [abs s] with the four name maps filled in (used by C20's class clause, which reads `iter_class`). *)
+Definition amap_of (l : list (name * N)) : list (name * N) :=
+  fold_right (fun e m => SymbolMap.amap_insert m (fst e) (snd e)) [] l.
+Definition absN (s : st) : SymbolMap.symbol_map :=
+  SymbolMap.set_name_to_defset
+    (SymbolMap.set_name_to_multiclass
+       (SymbolMap.set_name_to_def
+          (SymbolMap.set_name_to_class (abs s) (amap_of (s_nclass s)))
+          (amap_of (s_ndef s)))
+       (amap_of (s_nmc s)))
+    (amap_of (map_leaf_ids s (s_ndset s))).
+
 (** ---- helpers for the extracted comparison driver (ixbridge_driver.ml): arenas by a numeric kind code, so that the
     driver needs no constructor of the two kind types (their names clash after extraction) *)
 Definition kinds_coded : list (N * SymbolMap.sym_kind) :=
